@@ -3,7 +3,7 @@
  * block bit-stream reader over any segmentation of the same bytes")
  *
  * Same objects, manager stub, WF and builders as the block unit (included), but the areas hold real octets
- * (AREASZ = 8 each, windows inside them): the byte view  view(head)[i] = area_k[offset_k + (i - start_k)].
+ * (AREASZ = 4 each, windows inside them): the byte view  view(head)[i] = area_k[offset_k + (i - start_k)].
  * Contracts (assume/assert entries, chains of NSEG segments with symbolic windows incl. empty ones, full-range ints):
  *   extract(o, n, buf) : accepted ==> [o, o+n) inside the block and buf[j] == view[o+j] (ghost j); refused ==> range invalid;
  *   peek(o, n, buf)    : returns p with p[j] == view[o+j], or NULL only when the range is invalid;
@@ -17,12 +17,21 @@
  * Every operation leaves the block's view and WF untouched; no octet of any area is written (explicit frame).
  */
 #define BLOCK_BYTES
-#define AREASZ 8
-#define MAXSZ 8
+#define AREASZ 4
+#define MAXSZ 4
 #include "../block/contract.c"
 #include <upipe/ubuf_block_stream.h>
 #include <sys/uio.h>
 
+#ifndef VNATIVE
+/* libc model (CBMC ships none for memchr): first occurrence of c in s[0, n) */
+void *memchr(const void *s, int c, size_t n)
+{
+    const unsigned char *p = s;
+    for (size_t k = 0; k < n; k++) if (p[k] == (unsigned char)c) return (void *)(p + k);
+    return NULL;
+}
+#endif
 static inline bool spec_byte(struct ubuf *h, size_t i, uint8_t *v)
 {
     uint8_t *b; size_t off;
@@ -33,7 +42,7 @@ static inline bool spec_quiet(struct ubuf *ubuf)       /* accessor left the bloc
 {
     return spec_wf(ubuf) && spec_unchanged(ubuf, &g_o) && spec_areas_kept() && !g_stub_bad;
 }
-#define NB 20
+#define NB 12
 void h_extract(void)
 {
     BUILD_BLOCK(); VIN(int, offset); VIN(int, size); VIN(uint8_t, gj);
